@@ -60,6 +60,10 @@ CHECKS = {
          "Every configuration within the bounds is compiled and rendered through recording loaders: the set of fetched paths must equal the closure of the referenced names, the first loader holding a name must serve it (later loaders not asked), missing names are errors (or nothing with if_exists, which must not swallow errors of existing files), each hop is resolved relative to the referring file, and a real file no loader serves is never read.",
          "Harness loaders follow DESIGN.md Appendix A.8; expectations are computed by the generator from its knowledge of the tree.",
          "DESIGN.md §3 C11"),
+ "C02": ("bounded-exhaustive composition of data-flow routes (taint sources x carrier chains up to depth 2/3 x print sinks) plus every registered filter on tainted input/argument, judged by a marker-absence and differential-count oracle",
+         "Every opt-out-free program built from 23 taint sources, all chains of up to 2 (thorough 3) of 33 carriers and 7 sinks, every registered filter (registry hook) with tainted input or argument, tags printing their arguments, inheritance/Super routes and the scope of the explicit opt-outs is rendered with a marker made of < > & ' \" in every string leaf; no raw fragment of the marker may appear and the count of raw special characters may not exceed that of the same program on a harmless twin value.",
+         "Non-interference is checked on the enumerated route compositions only; transformations that hide the marker without emitting raw specials are fine by the property.",
+         "DESIGN.md §3 C02"),
 }
 
 NOT_YET = {}
